@@ -214,7 +214,10 @@ def gen_derive(rng, w, t):
             cands = [k for k in cands if all(v != 0 for v in w.o(k)['M'].v) and all(abs(v) in (1, 2, 4, 0.5) for v in w.o(k)['M'].v)]
             if not cands:
                 return ['derive', nm, 'pos', t]
-        other = rng.choice(cands) if cands and rng.random() < 0.9 else rng.choice(names)
+        if kind == 'ediv':
+            other = rng.choice(cands)         # only exactly invertible divisors: everything must stay exact
+        else:
+            other = rng.choice(cands) if cands and rng.random() < 0.9 else rng.choice(names)
         return ['derive', nm, kind, t, other]
     if kind == 'mul':
         cands = [k for k in names if w.o(k)['M'].m == n or w.o(k)['M'].size == (1, 1)]
@@ -532,7 +535,8 @@ def apply(op, w, stats):
             if not same(rr, mr):
                 raise Mismatch('model-differs', '%s: result %s %s %r, model %s %s %r' %
                                (dk, rr.typecode, rr.size, list(rr)[:8], mr.tc, mr.size, mr.v[:8]), op='derive.' + dk, tc=M.tc)
-            w.bind(nm, rr, mr)
+            if all(abs(v) < 1e9 for v in mr.v):
+                w.bind(nm, rr, mr)        # larger magnitudes would leave the range where all arithmetic is exact
         else:
             if isinstance(rr, matrix) or rr != mr or type(rr) is not type(mr):
                 raise Mismatch('model-differs', '%s: scalar result %r, model %r' % (dk, rr, mr), op='derive.' + dk, tc=M.tc)
